@@ -8,6 +8,9 @@ BASE = ("go/types + go/ssa (x/tools v0.29.0) faithful IR; stdlib contracts as do
         "(DESIGN.md section 3); caller-supplied io.Reader/io.Writer obey their contracts")
 
 CHECKS = {
+ "C04": dict(level="proof", ref="§4 C04",
+   text="Panic-freedom of the whole decode call tree for all inputs: an obligation is generated from the SSA form for every instruction that can panic (index, slice, nil dereference, nil call, unchecked type assertion, negative make size, division, explicit panic, stdlib preconditions) in every function reachable from ReadPacket and every UnmarshalBinary/ReadFrom, and discharged by a local prover (linear facts from dominating branches with Fourier-Motzkin entailment, wrap-aware narrow arithmetic, nil facts, store-to-load forwarding under a type-based no-intervening-write analysis, callee summaries, invariants of the sequential reader proven over all its writers, a geometric-accumulator bound for the frame size, a post-condition lemma for the length-prefixed decoder, and 'field non-nil' requirements resolved at the sites where closures are put to use). ReadPacket's result shape is (non-nil,nil) xor (nil,non-nil). Undischarged = failure.",
+   technique="static analysis: obligation generation on go/ssa + abstract interpretation (linear inequalities, nilness, available values) with inductive contracts"),
  "C11": dict(level="proof", ref="§4 C11",
    text="Every instruction of every function reachable from WriteTo/String/Error/Dump/WellFormed/accessors is inspected for nondeterminism sources (map ranges must be over provably <=1-entry map literals; no select/go/channel; external calls only from a deterministic allow-list; no address printed by fmt; no pointer-to-integer conversion), and the provenance/effect analysis shows these operations write nothing but their io.Writer argument and that package state is init-only. A sequential function without those sources is a function of its inputs in any process. Proof modulo the stdlib model table.",
    technique="static analysis: SSA instruction scan over the call graph + interprocedural write-effect/provenance analysis"),
